@@ -3,6 +3,7 @@
 Nothing here judges anything; oracles live in vf/oracles.py.  Every builder is a pure
 function of its descriptor (no RNG, no clock).
 """
+import collections
 import math
 
 import numpy as np
@@ -408,6 +409,9 @@ def preuse_num2d(num, model, nx, ny):
     d.rhs(build_field(m, decoy, m.prim2cons([w, np.vstack([0.1 * w, -0.2 * w]), w])))
 
 
+_LATER = collections.deque(maxlen=4)
+
+
 def build_disc(model, mesh, num_desc, flux, bcL, bcR):
     import flowdyn.modeldisc as modeldisc
     num = build_num(num_desc)
@@ -416,7 +420,22 @@ def build_disc(model, mesh, num_desc, flux, bcL, bcR):
     # two sides with the same condition: scripts often pass ONE dictionary for both (bc = {'type': 'sym'}; fvm(..., bcL=bc, bcR=bc))
     if repr(bcL) == repr(bcR) and _preuse(num_desc, "bc", int(mesh.ncell)):
         bcR = bcL
-    return modeldisc.fvm(model, mesh, num, numflux=flux, bcL=bcL, bcR=bcR)
+    kw = dict(bcL=bcL, bcR=bcR)
+    if bcL == {"type": "per"} and bcR == {"type": "per"} and _preuse(num_desc, "default-bc", int(mesh.ncell)):
+        kw = {}         # periodic is the default of fvm: half of the periodic discretisations are built the way the README does, without bcL / bcR
+    disc = modeldisc.fvm(model, mesh, num, numflux=flux, **kw)
+    if _preuse(num_desc, "later-disc", int(mesh.ncell), flux):
+        # a discretisation must not depend on discretisations constructed after it (parametric studies build all of them first): a second one, for
+        # the same model and the same boundary-condition objects on a mesh of another size and extent, is built before the first is ever used
+        import flowdyn.mesh as fmesh
+        span = float(mesh.xf[-1] - mesh.xf[0])
+        import copy
+        import flowdyn.modelphy.base as mbase
+        # a model whose initdisc() keeps mesh data (the nozzle: section law at the cell centres) is bound to its last discretisation by design: the later
+        # discretisation then gets a copy of the model; every other model is shared
+        later_model = model if type(model).initdisc is mbase.model.initdisc else copy.copy(model)
+        _LATER.append(modeldisc.fvm(later_model, fmesh.unimesh(ncell=int(mesh.ncell) + 3, length=2.5 * span), build_num(num_desc), numflux=flux, **kw))
+    return disc
 
 
 def build_disc2d(model, mesh, num_desc, flux, bclist):
